@@ -190,6 +190,65 @@ func main() {
 }
 `, w, w))
 	}
+	// T10: every form of go statement (literal, function variable, declared function, method value) with arguments of every
+	// reference kind passed from variables that the parent reassigns right after the go statement: the arguments of a go
+	// statement are evaluated (copied) when the statement executes
+	for _, c := range []struct {
+		form string
+		n    int
+	}{{"lit", 2}, {"lit", 3}, {"fvar", 2}, {"named", 2}, {"method", 2}} {
+		call := map[string]string{
+			"lit":    "go func(out chan int, j *job, s []int, mm map[string]int, k int) {\n\t\t\tout <- j.n*1000 + s[0]*100 + mm[\"v\"]*10 + k\n\t\t}(ch, jb, sl, m, i)",
+			"fvar":   "go f(ch, jb, sl, m, i)",
+			"named":  "go named(ch, jb, sl, m, i)",
+			"method": "go wk.run(ch, jb, sl, m, i)",
+		}[c.form]
+		add(fmt.Sprintf("T10 go-args form=%s workers=%d", c.form, c.n), fmt.Sprintf(`type job struct{ n int }
+
+type worker struct{ base int }
+
+func (w worker) run(out chan int, j *job, s []int, mm map[string]int, k int) {
+	out <- w.base + j.n*1000 + s[0]*100 + mm["v"]*10 + k
+}
+
+func named(out chan int, j *job, s []int, mm map[string]int, k int) {
+	out <- j.n*1000 + s[0]*100 + mm["v"]*10 + k
+}
+
+func main() {
+	chans := make([]chan int, %d)
+	for i := range chans {
+		chans[i] = make(chan int, 1)
+	}
+	var ch chan int
+	var jb *job
+	var sl []int
+	var m map[string]int
+	f := func(out chan int, j *job, s []int, mm map[string]int, k int) {
+		out <- j.n*1000 + s[0]*100 + mm["v"]*10 + k
+	}
+	wk := worker{0}
+	_, _ = f, wk
+	for i := 0; i < len(chans); i++ {
+		ch = chans[i]
+		jb = &job{i + 1}
+		sl = []int{i + 2}
+		m = map[string]int{"v": i + 3}
+		%s
+	}
+	spare := make(chan int, 4)
+	wk = worker{5000}
+	ch = spare
+	jb = &job{9}
+	sl = []int{9}
+	m = map[string]int{"v": 9}
+	for i := 0; i < len(chans); i++ {
+		Show(<-chans[i])
+	}
+	Show(len(spare), jb.n, sl[0], m["v"], ch == spare, wk.base)
+}
+`, c.n, call))
+	}
 	add("T8 select-default-poll", `func main() {
 	ch := make(chan int)
 	ack := make(chan bool)
